@@ -11,6 +11,12 @@ EXPECT = [
     ("c = make(chan int64, 1); c <- 5; close(c); a = (<-c); b = (<-c); [a, b]", "[i:5,nil]", "buffered values are still delivered after close, then nil"),
     ("c = make(chan int64, 1); c <- 5; close(c); v = 0; v, ok = <-c; a = [v, ok]; v, ok = <-c; [a, v, ok]", "[[i:5,b:true],i:5,b:false]",
      "the two-value receive sets ok to false and leaves the value variable untouched"),
+    ("c = make(chan int64, 1); close(c); ok = true; if true { v, ok = <- c }; ok", "b:false",
+     "the two-value receive sets the ok variable it names, also from a nested block"),
+    ("c = make(chan int64, 1); c <- 5; close(c); ok = false; v = 0; func f() { v, ok = <- c }; f(); a = [v, ok]; f(); [a, v, ok]", "[[i:5,b:true],i:5,b:false]",
+     "the two-value receive inside a function sets the outer variables it names"),
+    ("c = make(chan int64, 1); close(c); ok = true; for i in [1] { try { v, ok = <- c } catch e { } }; ok", "b:false",
+     "the two-value receive sets the ok variable from inside a loop and a try block"),
     ("c = make(chan int64, 1); close(c); r = \"ok\"; try { c <- 1 } catch e { r = \"E\" }; r", "s:45", "sending on a closed channel is an error, never a crash"),
     ("c = make(chan int64, 1); close(c); r = \"ok\"; try { close(c) } catch e { r = \"E\" }; r", "s:45", "closing twice is an error, never a crash"),
     ("x = 1; c = make(chan int64, 1); go func(v) { c <- v }(x); x = 2; (<-c)", "i:1", "a go call evaluates its arguments before it starts"),
@@ -101,7 +107,7 @@ def run(tier, seed, replay=None):
             "fan_in_shapes": sorted(set("%d producers/cap %d" % (len(f["ns"]), f["cap"]) for f in fans)),
             "evaluations": runs + fan_runs + len(EXPECT), "distinct_nontrivial": len(set(p["src"] for p in meta["programs"] if p["items"])),
             "rule": "random pipelines: 0-4 mapping stages (x, x+1, x*2, x-3, -x), channel capacities 0-5, element types int64 / interface / float64, "
-                    "0-40 items, producer as for-in, counted loop, `go produce(ch, items...)` (variadic + spread) or `go produce(ch, items)` with the list reassigned afterwards, stages as anonymous or named functions started with arguments, consumer as for-in, two-value receive statement or receive expression until nil; "
+                    "0-40 items, producer as for-in, counted loop, `go produce(ch, items...)` (variadic + spread) or `go produce(ch, items)` with the list reassigned afterwards, stages as anonymous or named functions started with arguments, consumer as for-in, two-value receive statement (in the loop body, in a nested block with ok declared outside, or inside a function and try block) or receive expression until nil; "
                     "each run repeatedly; the collected list must equal the channel machine's; fan-in programs (2-4 producers of 0-300 values each, named or "
                     "anonymous, into one channel of capacity 0-5, a closer goroutine, one consumer; three heavy ones: 4 x 1500 values through one slot) run "
                     "repeatedly and judged by the extracted verdict fanin_ok; plus %d directed programs (close semantics, conversion, go "
